@@ -312,7 +312,7 @@ def check_model(ctx, sc, m, w, p, r, UVLWriter, UVLReader, label):
     holder = {}
 
     def read_file():
-        holder["fm"] = UVLReader(path).transform()
+        holder["fm"] = fmt.read_twice(UVLReader, path)
         return holder["fm"]
     iread = sx.dumps(fmt.result_pfm(read_file))
     r.record(label, rreq, iread, mread)
@@ -588,7 +588,7 @@ def run_c04(ctx):
             holder = {}
 
             def read_file():
-                holder["fm"] = UVLReader(path).transform()
+                holder["fm"] = fmt.read_twice(UVLReader, path)
                 return holder["fm"]
             iread = sx.dumps(fmt.result_pfm(read_file))
             r.record("emitter", rreq, iread, mread)
@@ -709,7 +709,7 @@ def run_c04_known(ctx):
 
             def read_file():
                 with contextlib.redirect_stderr(io.StringIO()):
-                    holder["fm"] = UVLReader(path).transform()
+                    holder["fm"] = fmt.read_twice(UVLReader, path)
                 return holder["fm"]
             logging.disable(logging.CRITICAL)
             try:
